@@ -1,146 +1,2 @@
-(* GENERATED by gen/gen_consts.py from the current /repo sources -- do not edit *)
-From Coq Require Import ZArith List.
-Import ListNotations.
-Require Import H4.LimitsWidth.
-Local Open Scope Z_scope.
-
-(* hdf/src/hfile_priv.h *)
-Definition MAGICLEN : Z := 4.
-Definition DD_SZ : Z := 12.
-Definition NDDS_SZ : Z := 2.
-Definition OFFSET_SZ : Z := 4.
-Definition INVALID_OFFSET : Z := (-1).
-Definition INVALID_LENGTH : Z := (-1).
-Definition LIBVER_LEN : Z := 92.
-Definition DEF_NDDS : Z := 16.
-Definition MIN_NDDS : Z := 4.
-Definition MAX_REF : Z := 65535.
-Definition MAX_FILE : Z := 32.
-Definition DFTAG_NULL : Z := 1.
-Definition DFTAG_VERSION : Z := 30.
-Definition DFTAG_LINKED : Z := 20.
-Definition DFTAG_VG : Z := 1965.
-Definition DFTAG_VH : Z := 1962.
-Definition DFTAG_VS : Z := 1963.
-Definition DFREF_NONE : Z := 0.
-Definition MAX_ORDER : Z := 65535.
-Definition MAX_FIELD_SIZE : Z := 65535.
-Definition VSFIELDMAX : Z := 256.
-Definition VSNAMELENMAX : Z := 64.
-Definition VGNAMELENMAX : Z := 64.
-Definition FIELDNAMELENMAX : Z := 128.
-Definition MAXNVELT : Z := 64.
-Definition H4_MAX_NC_OPEN : Z := 32.
-Definition H4_MAX_NC_NAME : Z := 256.
-Definition H4_MAX_VAR_DIMS : Z := 32.
-Definition H4_MAX_NC_VARS : Z := 5000.
-Definition H4_MAX_NC_DIMS : Z := 5000.
-Definition SIZE_FLOAT32 : Z := 4.
-(* mfhdf/src/file.c *)
-Definition H4_MAX_AVAIL_OPENFILES : Z := 20000.
-(* hdf/src/dfconv.c: switch in DFKNTsize, returned constants (after preprocessing) *)
-Definition DFKNTsize_switch : list (Z * Z) :=
-  [(4099, 1);
-   (4100, 1);
-   (4116, 1);
-   (4117, 1);
-   (4118, 2);
-   (4119, 2);
-   (4120, 4);
-   (4121, 4);
-   (4101, 4);
-   (4102, 8);
-   (3, 1);
-   (4, 1);
-   (20, 1);
-   (21, 1);
-   (22, 2);
-   (23, 2);
-   (24, 4);
-   (25, 4);
-   (5, 4);
-   (6, 8)].
-(* hdf/src/hfile.c: HPgetdiskblock: block_size < 0 *)
-Definition getdiskblock_bad_size (block_size : Z) : Z := (if Z.ltb block_size 0 then 1 else 0).
-(* hdf/src/hfile.c: HPgetdiskblock: block_size > (2147483647) - file_rec->f_end_off *)
-Definition getdiskblock_too_far (block_size : Z) (f_end_off : Z) : Z := (if Z.ltb (sub32 2147483647 f_end_off) block_size then 1 else 0).
-(* hdf/src/hfile.c: HPgetdiskblock: block_size *)
-Definition getdiskblock_incr (block_size : Z) : Z := block_size.
-(* hdf/src/hfile.c: Hwrite: length > (2147483647) - access_rec->posn *)
-Definition hwrite_past_elem_max (length : Z) (posn : Z) : Z := (if Z.ltb (sub32 2147483647 posn) length then 1 else 0).
-(* hdf/src/hfile.c: Hwrite: access_rec->posn + length > (2147483647) - data_off *)
-Definition hwrite_past_file_max (posn : Z) (length : Z) (data_off : Z) : Z := (if Z.ltb (sub32 2147483647 data_off) (add32 posn length) then 1 else 0).
-(* hdf/src/hfile.c: Hwrite: length <= 0 || (!access_rec->appendable && length + access_rec->posn > data_len) *)
-Definition hwrite_bad_request (length : Z) (appendable : Z) (posn : Z) (data_len : Z) : Z := (if orb (negb (Z.eqb (if Z.leb length 0 then 1 else 0) 0)) (negb (Z.eqb (if andb (negb (Z.eqb (if Z.eqb appendable 0 then 1 else 0) 0)) (negb (Z.eqb (if Z.ltb data_len (add32 length posn) then 1 else 0) 0)) then 1 else 0) 0)) then 1 else 0).
-(* hdf/src/hfile.c: Hwrite: access_rec->appendable && length + access_rec->posn > data_len *)
-Definition hwrite_extends (appendable : Z) (length : Z) (posn : Z) (data_len : Z) : Z := (if andb (negb (Z.eqb appendable 0)) (negb (Z.eqb (if Z.ltb data_len (add32 length posn) then 1 else 0) 0)) then 1 else 0).
-(* hdf/src/hfiledd.c: HTPstart: curr_dd_ptr->offset + curr_dd_ptr->length *)
-Definition htpstart_dd_end (offset : Z) (length : Z) : Z := (add32 offset length).
-(* hdf/src/hfiledd.c: HTPstart: ddcurr->myoffset + (2 + 4) + (ndds * 12) *)
-Definition htpstart_blk_end (myoffset : Z) (ndds : Z) : Z := (add32 (add32 myoffset (add32 2 4)) (mul32 ndds 12)).
-(* hdf/src/hfiledd.c: HTIupdate_dd: dd_ptr->offset + dd_ptr->length *)
-Definition htiupdate_dd_end (offset : Z) (length : Z) : Z := (add32 offset length).
-(* hdf/src/hfiledd.c: Hnewref: file_rec->maxref < ((uint16)65535) *)
-Definition hnewref_has_next (maxref : Z) : Z := (if Z.ltb maxref (Z.modulo 65535 65536) then 1 else 0).
-(* hdf/src/hfiledd.c: Hnewref: i_ref <= (uint32)((uint16)65535) *)
-Definition hnewref_search_more (i_ref : Z) : Z := (if Z.leb i_ref (Z.modulo 65535 65536) then 1 else 0).
-(* hdf/src/hfiledd.c: Htagnewref: next_ref > (int32)((uint16)65535) *)
-Definition htagnewref_none_left (next_ref : Z) : Z := (if Z.ltb (sub32 (Z.modulo (add32 (Z.modulo 65535 65536) 2147483648) 4294967296) 2147483648) next_ref then 1 else 0).
-(* hdf/src/vgp.c: vinsertpair: vg->nvelt >= (65535) *)
-Definition vinsertpair_full (nvelt : Z) : Z := (if Z.leb 65535 nvelt then 1 else 0).
-(* hdf/src/vgp.c: vinsertpair: vg->nvelt *)
-Definition vinsertpair_counter (nvelt : Z) : Z := nvelt.
-(* hdf/src/vgp.c: Vsetname: name_len > (65535) *)
-Definition vsetname_too_long (name_len : Z) : Z := (if Z.ltb 65535 name_len then 1 else 0).
-(* hdf/src/vgp.c: Vsetclass: classname_len > (65535) *)
-Definition vsetclass_too_long (classname_len : Z) : Z := (if Z.ltb 65535 classname_len then 1 else 0).
-(* hdf/src/vgp.c: vpackvg: (uint16)(slen > 0 ? slen : 0) *)
-Definition vpackvg_len16 (slen : Z) : Z := (Z.modulo (if Z.eqb (if Z.ltb 0 slen then 1 else 0) 0 then 0 else slen) 65536).
-(* hdf/src/vsfld.c: VSfdefine: order < 1 || order > 65535 *)
-Definition vsfdefine_bad_order (order : Z) : Z := (if orb (negb (Z.eqb (if Z.ltb order 1 then 1 else 0) 0)) (negb (Z.eqb (if Z.ltb 65535 order then 1 else 0) 0)) then 1 else 0).
-(* hdf/src/vsfld.c: VSfdefine: (isize * order) > 65535 *)
-Definition vsfdefine_too_big (isize : Z) (order : Z) : Z := (if Z.ltb 65535 (mul32 isize order) then 1 else 0).
-(* hdf/src/vsfld.c: VSsetfields: ac > 256 *)
-Definition vssetfields_too_many (ac : Z) : Z := (if Z.ltb 256 ac then 1 else 0).
-(* hdf/src/vsfld.c: VSsetfields: order * vs->usym[j].isize *)
-Definition vssetfields_isize (order : Z) (isize : Z) : Z := (mul32 order isize).
-(* hdf/src/vsfld.c: VSsetfields: value > 65535 *)
-Definition vssetfields_too_big (value : Z) : Z := (if Z.ltb 65535 value then 1 else 0).
-(* hdf/src/vsfld.c: VSsetfields: (int32)wlist->ivsize + (int32)(wlist->isize[wlist->n]) *)
-Definition vssetfields_sum (ivsize : Z) (isize : Z) : Z := (add32 ivsize isize).
-(* hdf/src/vsfld.c: VSsetfields: (uint16)value *)
-Definition vssetfields_store (value : Z) : Z := (Z.modulo value 65536).
-(* hdf/src/vparse.c: scanattrs: nsym >= 256 *)
-Definition scanattrs_full (nsym : Z) : Z := (if Z.leb 256 nsym then 1 else 0).
-(* hdf/src/vrw.c: VSseek: vs->wlist.ivsize > 0 && eltpos > (2147483647) / (int32)vs->wlist.ivsize *)
-Definition vsseek_too_far (ivsize : Z) (eltpos : Z) : Z := (if andb (negb (Z.eqb (if Z.ltb 0 ivsize then 1 else 0) 0)) (negb (Z.eqb (if Z.ltb (Z.quot 2147483647 ivsize) eltpos then 1 else 0) 0)) then 1 else 0).
-(* hdf/src/vrw.c: VSseek: eltpos * vs->wlist.ivsize *)
-Definition vsseek_offset (eltpos : Z) (ivsize : Z) : Z := (mul32 eltpos ivsize).
-(* hdf/src/vrw.c: VSwrite: hdf_size > 0 && nelt > (2147483647) / hdf_size *)
-Definition vswrite_too_many (hdf_size : Z) (nelt : Z) : Z := (if andb (negb (Z.eqb (if Z.ltb 0 hdf_size then 1 else 0) 0)) (negb (Z.eqb (if Z.ltb (Z.quot 2147483647 hdf_size) nelt then 1 else 0) 0)) then 1 else 0).
-(* hdf/src/vrw.c: VSwrite: hdf_size * nelt *)
-Definition vswrite_total (hdf_size : Z) (nelt : Z) : Z := (mul32 hdf_size nelt).
-(* hdf/src/vrw.c: VSread: hsize > 0 && nelt > (2147483647) / hsize *)
-Definition vsread_too_many (hsize : Z) (nelt : Z) : Z := (if andb (negb (Z.eqb (if Z.ltb 0 hsize then 1 else 0) 0)) (negb (Z.eqb (if Z.ltb (Z.quot 2147483647 hsize) nelt then 1 else 0) 0)) then 1 else 0).
-(* hdf/src/vrw.c: VSread: hsize * nelt *)
-Definition vsread_total (hsize : Z) (nelt : Z) : Z := (mul32 hsize nelt).
-(* hdf/src/vg.c: VSsetname: 64 *)
-Definition vssetname_limit  : Z := 64.
-(* hdf/src/vg.c: VSsetname: 64 *)
-Definition vssetname_copied  : Z := 64.
-(* hdf/src/vg.c: VSsetclass: 64 *)
-Definition vssetclass_limit  : Z := 64.
-(* hdf/src/vg.c: VSsetclass: 64 *)
-Definition vssetclass_copied  : Z := 64.
-(* mfhdf/src/mfsd.c: SDcreate: rank > 32 *)
-Definition sdcreate_bad_rank (rank : Z) : Z := (if Z.ltb 32 rank then 1 else 0).
-(* mfhdf/src/string.c: H4_NC_new_string: count > 256 *)
-Definition ncstring_too_long (count : Z) : Z := (if Z.ltb 256 count then 1 else 0).
-(* mfhdf/src/file.c: NC_reset_maxopenfiles: req_max <= _curr_opened *)
-Definition resetmax_keeps (req_max : Z) (_curr_opened : Z) : Z := (if Z.leb req_max _curr_opened then 1 else 0).
-(* mfhdf/src/file.c: NC_reset_maxopenfiles: req_max > sys_limit *)
-Definition resetmax_caps (req_max : Z) (sys_limit : Z) : Z := (if Z.ltb sys_limit req_max then 1 else 0).
-(* mfhdf/src/file.c: NC_reset_maxopenfiles: alloc_size <= old_idx *)
-Definition resetmax_too_small (alloc_size : Z) (old_idx : Z) : Z := (if Z.leb alloc_size old_idx then 1 else 0).
-(* mfhdf/src/file.c: NC_open: cdfid == _cdfs_size && _ncdf >= max_NC_open *)
-Definition ncopen_table_full (cdfid : Z) (_cdfs_size : Z) (_ncdf : Z) (max_NC_open : Z) : Z := (if andb (negb (Z.eqb (if Z.eqb cdfid _cdfs_size then 1 else 0) 0)) (negb (Z.eqb (if Z.leb max_NC_open _ncdf then 1 else 0) 0)) then 1 else 0).
+(* GENERATED: translator failed: hdf/src/hfiledd.c:Htagnewref: anchor '\\|\\| (next_ref > [^;{]*?)\\)\\s*do\\b' matched 0 times (need exactly 1) *)
+Definition translator_failed : True := I I.
